@@ -27,8 +27,8 @@ func (o bop) String() string {
 	return sx(o.k)
 }
 
-func stateStr(buf []byte, vu, mode int, open bool, _ int) string {
-	return sx("st", hx(buf), itoa(vu), itoa(mode), b01(open))
+func stateStr(buf []byte, vu, mode int, open bool, capacity int) string {
+	return sx("st", hx(buf), itoa(vu), itoa(mode), b01(open), itoa(capacity))
 }
 
 func setModeManual(mb *redact.ManualBuffer, n int64) {
